@@ -137,6 +137,52 @@ func rulesC19(e *Engine, r *Report) {
 		_ = so
 	}
 
+	// ---------------------------------------------------------------- R19.7
+	r.Rule("R19.7", "inheritance shares values, not storage that is written later: a slice option that a later source inherits is the SAME slice as the preceding source's; the sender's wiring must therefore not append to a list that still is the configuration's own slice (a tag's `never send over HTTP` pattern would land in another source's filter) - shared with R17.8")
+	e.checkNoSharedAppend(r, "R19.7")
+
+	// ---------------------------------------------------------------- R19.8
+	r.Rule("R19.8", "an omitted list stays nil so that it can be inherited: inheritance copies a field only when it is zero, and for a slice zero means nil; where applyAux of a struct that takes part in inheritance fills a slice option by cutting it out of another list (a slice expression - empty but NOT nil when the option was omitted and the other list is not), the store must be conditional on the document's field being present (`aux.F != nil` / `len(aux.F) > 0`)")
+	for _, tn := range []string{"SourceConf", "TagConf"} {
+		fn := e.Fn("sts.(*" + tn + ").applyAux")
+		if fn == nil {
+			continue
+		}
+		n := 0
+		Instrs(fn, func(in ssa.Instruction) {
+			sto, ok := in.(*ssa.Store)
+			if !ok {
+				return
+			}
+			fa, ok := sto.Addr.(*ssa.FieldAddr)
+			if !ok || e.Canon(fa.X) != "p0" {
+				return
+			}
+			f := fieldVar(fa.X, fa.Field)
+			if f == nil || !f.Exported() {
+				return
+			}
+			if _, isSlice := f.Type().Underlying().(*types.Slice); !isSlice {
+				return
+			}
+			sl, isCut := sto.Val.(*ssa.Slice)
+			if !isCut {
+				return // a direct copy keeps nil nil
+			}
+			if e.Canon(sl.X) == "p1."+f.Name() {
+				return // a cut of the document's own field: nil stays nil
+			}
+			n++
+			conds := e.domConds(in.Block())
+			ok2 := hasStr(conds, "(p1."+f.Name()+" != nil)") || hasStr(conds, "(0 < builtin(len)(p1."+f.Name()+"))") || hasStr(conds, "(builtin(len)(p1."+f.Name()+") > 0)") || hasStr(conds, "(builtin(len)(p1."+f.Name()+") != 0)")
+			r.Check(ok2, "R19.8", fmt.Sprintf("sts.(*%s).applyAux: %s is cut out of a joined list only when the document has it", tn, f.Name()), e.InstrPos(in),
+				"an omitted `"+tagOfField(f)+"` becomes an empty non-nil list as soon as the neighbouring list is given, and is then NOT inherited from the preceding source", 1, append([]string{e.Canon(sto.Val)}, conds...)...)
+		})
+		if tn == "SourceConf" {
+			r.Min("R19.8", "slice options cut out of a joined list in "+e.ShortName(fn), n, 2)
+		}
+	}
+
 	// ---------------------------------------------------------------- R19.6
 	r.Rule("R19.6", "like to like: what applyAux stores into field F of the configuration derives from field F of the parsed document (and, for constants, is chosen under a test of that field), and what MarshalJSON writes back into F derives from F of the configuration - never from a different option; where two lists are converted in one pass (include + ignore patterns) each side is cut out of the joined list at the length of the list that was put FIRST")
 	for _, p := range pairs {
@@ -486,3 +532,5 @@ func rulesC19(e *Engine, r *Report) {
 		}
 	}
 }
+
+func tagOfField(f *types.Var) string { return strings.ToLower(f.Name()) }
